@@ -19,7 +19,10 @@ def run_leg(leg, tier, variant='fast', extra=(), timeout=3000):
     except build.BuildError as e:
         return None, [], str(e)[-1500:]
     t = time.time()
-    p = subprocess.run([x, leg, tier] + list(extra), stdout=subprocess.PIPE, stderr=subprocess.STDOUT, env=ENV, timeout=timeout)
+    try:
+        p = subprocess.run([x, leg, tier] + list(extra), stdout=subprocess.PIPE, stderr=subprocess.STDOUT, env=ENV, timeout=timeout)
+    except subprocess.TimeoutExpired:
+        return {'timeout': True, 'wall_s': round(time.time() - t, 2)}, [], ''
     out = p.stdout.decode(errors='replace')
     stats, viols = {}, []
     for line in out.split('\n'):
